@@ -94,6 +94,8 @@ def main():
         for line in o.splitlines():
             k, ln, desc = line.split("\t")
             sites.append((rel, int(k), int(ln), desc))
+    # sites known to be equivalent by construction: Function.IsTypeFunction is never read
+    sites = [x for x in sites if not (x[3] == "false -> true" and x[0].endswith(("funcs/table.go", "funcs/function.go")))]
     rnd = random.Random(seed)
     rnd.shuffle(sites)
     done = set()
